@@ -48,8 +48,8 @@ Default == [f \in Fields |->
 (* value classes: the JSON text is what the replay embeds in the payload *)
 Classes == {"posint", "zero", "neg", "floatint", "decstr", "junk", "true", "false", "strTRUE", "strfalse", "null", "array", "object", "emptystr",
             "str1", "str0", "strt", "negfloat"}      \* strings that other languages read as booleans; a numeric string / a float that is not positive
-JsonOf(c) == CASE c = "posint" -> "7" [] c = "zero" -> "0" [] c = "neg" -> "-3" [] c = "floatint" -> "12.0"
-               [] c = "decstr" -> "\"9\"" [] c = "junk" -> "\"abc\"" [] c = "true" -> "true" [] c = "false" -> "false"
+JsonOf(c) == CASE c = "posint" -> "70" [] c = "zero" -> "0" [] c = "neg" -> "-3" [] c = "floatint" -> "120.0"
+               [] c = "decstr" -> "\"90\"" [] c = "junk" -> "\"abc\"" [] c = "true" -> "true" [] c = "false" -> "false"
                [] c = "strTRUE" -> "\"TRUE\"" [] c = "strfalse" -> "\" false \"" [] c = "null" -> "null"
                [] c = "array" -> "[1]" [] c = "object" -> "{\"a\":1}"
                [] c = "str1" -> "\"1\"" [] c = "str0" -> "\"0\"" [] c = "strt" -> "\"t\"" [] c = "negfloat" -> "-2.0" [] OTHER -> "\"\""
@@ -61,15 +61,15 @@ Effect(f, c, old) ==
           [] c \in {"false", "strfalse"} -> FALSE
           [] OTHER                       -> old
     ELSE IF f \in IntFields THEN
-        CASE c = "posint"          -> 7
-          [] c = "floatint"        -> 12
-          [] c = "decstr"          -> 9
+        CASE c = "posint"          -> 70
+          [] c = "floatint"        -> 120
+          [] c = "decstr"          -> 90
           [] c = "str1"            -> 1
           [] c \in {"zero", "neg", "str0", "negfloat"} -> Default[f]
           [] OTHER                 -> old
     ELSE \* cli.path
         CASE c = "junk"     -> "abc"
-          [] c = "decstr"   -> "9"
+          [] c = "decstr"   -> "90"
           [] c = "strTRUE"  -> "TRUE"
           [] c = "strfalse" -> " false "
           [] c = "str1"     -> "1"
